@@ -71,6 +71,8 @@ type env struct {
 	encE     [][]byte // shared encodings of the shared elements
 	uncE     [][]byte
 	encS     [][]byte
+	tmplE    *secp256k1.Element
+	tmplS    *secp256k1.Scalar
 	backings [][]byte
 	snaps    [][]byte
 	inner    [][2]int // per backing: [start, end) of the shared slice inside it
@@ -95,6 +97,16 @@ func buildEnv(c caseC16) (*env, error) {
 		ev.S = append(ev.S, s)
 		ev.encS = append(ev.encS, s.Encode())
 	}
+	ev.tmplE = secp256k1.Base().Double()
+	ev.tmplS = secp256k1.NewScalar().SetUInt64(0xC16)
+	ev.tmplE.Multiply(secp256k1.NewScalar().SetUInt64(77)).Add(secp256k1.Base()).Subtract(secp256k1.Base())
+	_ = ev.tmplE.Encode()
+	_ = ev.tmplE.Equal(secp256k1.Base())
+	_ = secp256k1.Base().Subtract(ev.tmplE)
+	ev.tmplS.Multiply(ev.tmplS).Invert().Pow(secp256k1.NewScalar().SetUInt64(3))
+	_ = ev.tmplS.Bits()
+	_ = ev.tmplS.Encode()
+	_ = ev.tmplS.LessOrEqual(ev.tmplS)
 	var mb, db []byte
 	ev.msg, mb = gen.Place(gen.HexBytes(c.Msg), c.MsgLay)
 	ev.dst, db = gen.Place(gen.HexBytes(c.Dst), c.DstLay)
@@ -117,6 +129,12 @@ func buildEnv(c caseC16) (*env, error) {
 func (ev *env) run(c call) []byte {
 	e := secp256k1.Base().Double() // private receivers, Z != 1
 	s := secp256k1.NewScalar().SetUInt64(0xC16)
+	if c.Cond%2 == 1 {
+		// ... or Go VALUE COPIES of template objects that took part in every kind of operation before (whatever such an
+		// object points to behind its coordinates is then shared by the copies, which are distinct receivers)
+		ec, sc := *ev.tmplE, *ev.tmplS
+		e, s = &ec, &sc
+	}
 	ei := ev.E[c.I%len(ev.E)]
 	si := ev.S[c.I%len(ev.S)]
 	sj := ev.S[c.J%len(ev.S)]
